@@ -32,6 +32,13 @@ pub struct NoNI;
 
 use core::marker::PhantomData;
 
+/// Verification hook: when non-zero, the std (run-time detection) arms of the dispatch macros
+/// call the named backend instead of the best detected one.
+/// 1 = SSE2, 2 = SSSE3, 3 = SSE4.1, 4 = AVX, 5 = AVX2.
+#[cfg(cryptocorrosion_verif)]
+pub static VERIF_FORCE_BACKEND: core::sync::atomic::AtomicU8 =
+    core::sync::atomic::AtomicU8::new(0);
+
 #[derive(Copy, Clone)]
 pub struct SseMachine<S3, S4, NI>(PhantomData<(S3, S4, NI)>);
 impl<S3: Copy, S4: Copy, NI: Copy> Machine for SseMachine<S3, S4, NI>
@@ -282,6 +289,17 @@ macro_rules! dispatch {
             unsafe fn impl_sse2($($arg: $argty),*) -> $ret {
                 fn_impl($crate::x86_64::SSE2::instance(), $($arg),*)
             }
+            #[cfg(cryptocorrosion_verif)]
+            unsafe {
+                match $crate::x86_64::VERIF_FORCE_BACKEND.load(core::sync::atomic::Ordering::Relaxed) {
+                    1 => return impl_sse2($($arg),*),
+                    2 => return impl_ssse3($($arg),*),
+                    3 => return impl_sse41($($arg),*),
+                    4 => return impl_avx($($arg),*),
+                    5 => return impl_avx2($($arg),*),
+                    _ => {}
+                }
+            }
             unsafe {
                 if is_x86_feature_detected!("avx2") {
                     impl_avx2($($arg),*)
@@ -346,6 +364,14 @@ macro_rules! dispatch_light128 {
             unsafe fn impl_sse2($($arg: $argty),*) -> $ret {
                 fn_impl($crate::x86_64::SSE2::instance(), $($arg),*)
             }
+            #[cfg(cryptocorrosion_verif)]
+            unsafe {
+                match $crate::x86_64::VERIF_FORCE_BACKEND.load(core::sync::atomic::Ordering::Relaxed) {
+                    1 | 2 | 3 => return impl_sse2($($arg),*),
+                    4 | 5 => return impl_avx($($arg),*),
+                    _ => {}
+                }
+            }
             unsafe {
                 if is_x86_feature_detected!("avx") {
                     impl_avx($($arg),*)
@@ -403,6 +429,14 @@ macro_rules! dispatch_light256 {
             #[target_feature(enable = "sse2")]
             unsafe fn impl_sse2($($arg: $argty),*) -> $ret {
                 fn_impl($crate::x86_64::SSE2::instance(), $($arg),*)
+            }
+            #[cfg(cryptocorrosion_verif)]
+            unsafe {
+                match $crate::x86_64::VERIF_FORCE_BACKEND.load(core::sync::atomic::Ordering::Relaxed) {
+                    1 | 2 | 3 => return impl_sse2($($arg),*),
+                    4 | 5 => return impl_avx($($arg),*),
+                    _ => {}
+                }
             }
             unsafe {
                 if is_x86_feature_detected!("avx") {
